@@ -82,8 +82,22 @@ func newWorker(cfgs []string) *worker {
 }
 
 func frameSummary(s *c10lab.Stream) string {
+	return common.L(append([]string{"frames"}, sumsOf(s.Frames)...)...)
+}
+
+// flushSummary: per Flush call the summaries of the frames it handed over:  (flushes (fl FR...)...)
+func flushSummary(s *c10lab.Stream) string {
+	items := []string{"flushes"}
+	for _, fl := range s.Flushes {
+		items = append(items, common.L(append([]string{"fl"}, sumsOf(fl)...)...))
+	}
+	items = append(items, common.L("foreign", strconv.Itoa(s.Foreign)))
+	return common.L(items...)
+}
+
+func sumsOf(frames []*c10lab.Frame) []string {
 	var fr []string
-	for _, f := range s.Frames {
+	for _, f := range frames {
 		if f.ParseErr != "" {
 			fr = append(fr, "(bad)")
 			continue
@@ -106,7 +120,7 @@ func frameSummary(s *c10lab.Stream) string {
 		}
 		fr = append(fr, common.L("fr", common.L(p...), common.L(i...), common.L(c...), common.L("hn", hn)))
 	}
-	return common.L(append([]string{"frames"}, fr...)...)
+	return fr
 }
 
 // ids are decimal strings in the wire format; anything else is mapped to 0 (never announced)
@@ -138,6 +152,7 @@ func runOne(lab *c10lab.Lab, oc *opCase, text, vars string, chooser c10lab.Choos
 		return run, s, fails
 	}
 	fails = append(fails, c10lab.CheckFramesWhole(s)...)
+	fails = append(fails, c10lab.CheckFlushes(s)...)
 	fails = append(fails, c10lab.CheckProtocol(s)...)
 	if s.Frames[0].ParseErr == "" {
 		rec, mf := c10lab.Reconstruct(s)
@@ -351,7 +366,7 @@ func processOp(w *worker, oc *opCase, plan orderPlan, rseed uint64) {
 			useed = lab.Universe.Sexp() // corpus / shrink: the universe itself
 		}
 		line := common.L("c10spec", common.L("cfg", q(oc.cfg)), useed,
-			common.L("op", q(text)), common.L("vars", q(vars)), common.L(picks...), frameSummary(s),
+			common.L("op", q(text)), common.L("vars", q(vars)), common.L(picks...), frameSummary(s), flushSummary(s),
 			common.L("term", common.B(term)), common.L("compl", strconv.Itoa(s.Completes)), common.L("ndefer", strconv.Itoa(n)), common.L(gof...), common.L("nt", common.B(nt)))
 		oc.lines = append(oc.lines, line)
 		if len(fails)+len(opFails) > 0 {
@@ -640,10 +655,28 @@ func corrMode(a map[string]string) {
 					mode, primary, slices = "slice", pr, sl
 				}
 			}
+			// hard fetch failures (full mode only: the model renders on the data after all fetches) and slow flushes
+			p.Fail, p.Window = map[int]int{}, false
+			if !wild && mode == "full" && len(p.NoFetch) == 0 && r.Chance(1, 4) {
+				c10lab.DrawFailures(r, p)
+				p.Window = r.Chance(4, 5)
+				dist["hardfail.plans"]++
+			} else if r.Chance(1, 12) {
+				p.Window = true
+			}
 			orders := 1 + r.Pick(3)
 			for o := 0; o < orders && i < n; o++ {
 				rr := common.NewRand(seed*977 + uint64(i))
 				run := p.Execute(primary, slices, func(step int, blocked []int) int { return rr.Pick(len(blocked)) })
+				if p.Window {
+					dist["window.runs"]++
+				}
+				for _, k := range p.Fail {
+					dist[fmt.Sprintf("hardfail.kind%d", k)]++
+				}
+				if len(p.Fail) > 0 && p.HasFailingSibling() {
+					dist["hardfail.with_sibling"]++
+				}
 				line := corrLine(p, payload, mode, labels, run)
 				if line != "" {
 					out.Line(line)
@@ -687,10 +720,12 @@ func corrLine(p *c10lab.DPlan, payload, mode string, labels []string, run *c10la
 	case run.Err != nil:
 		status = "error"
 	}
-	s := &c10lab.Stream{Completes: run.Rec.Completes, Unflushed: len(run.Rec.Unflushed()), AfterDone: run.Rec.AfterDone, TimedOut: run.TimedOut}
+	s := &c10lab.Stream{Completes: run.Rec.Completes, Unflushed: len(run.Rec.Unflushed()), AfterDone: run.Rec.AfterDone, TimedOut: run.TimedOut,
+		Foreign: run.Rec.Foreign()}
 	frames := []string{"frames"}
 	for _, raw := range run.Rec.Frames {
 		s.Frames = append(s.Frames, c10lab.ParseFrame(raw))
+		s.Flushes = append(s.Flushes, c10lab.SplitFlush(raw))
 		frames = append(frames, common.QS(c10lab.AbstractFrame(raw)))
 	}
 	// every release is followed by the render of that group (the coordinator waits for quiescence)
@@ -712,12 +747,26 @@ func corrLine(p *c10lab.DPlan, payload, mode string, labels []string, run *c10la
 			}
 		}
 	}
-	if allParsed && len(fromFrames) == len(run.Released) {
+	if allParsed && (len(fromFrames) == len(run.Released) || (len(p.Fail) > 0 && len(fromFrames) >= len(run.Released))) {
 		order = fromFrames
 	}
 	trace := []string{"trace"}
 	for _, id := range order {
+		if p.Fail[id] != 0 {
+			// the fetch phase of this group ends with a Go error; the terminal frame is rendered under the lock
+			trace = append(trace, common.L("x", common.I(id)))
+			continue
+		}
 		trace = append(trace, common.L("f", common.I(id)), common.L("r", common.I(id)))
+	}
+	fl := []string{"fail"}
+	var fids []int
+	for id := range p.Fail {
+		fids = append(fids, id)
+	}
+	sort.Ints(fids)
+	for _, id := range fids {
+		fl = append(fl, common.L(common.I(id), common.I(p.Fail[id])))
 	}
 	if mode == "slice" {
 		// a slice the resolver could not merge (list/null skeleton clash) is an artefact of the slicing
@@ -732,7 +781,7 @@ func corrLine(p *c10lab.DPlan, payload, mode string, labels []string, run *c10la
 		nof = append(nof, common.I(id))
 	}
 	gof := []string{"go"}
-	for _, f := range append(c10lab.CheckFramesWhole(s), c10lab.CheckProtocol(s)...) {
+	for _, f := range append(append(c10lab.CheckFramesWhole(s), c10lab.CheckFlushes(s)...), c10lab.CheckProtocol(s)...) {
 		gof = append(gof, common.L(f.Clause, q(f.Detail)))
 	}
 	recon := common.L("none", q("no parsable frames"))
@@ -745,7 +794,7 @@ func corrLine(p *c10lab.DPlan, payload, mode string, labels []string, run *c10la
 		}
 	}
 	return common.L("c10corr", p.DescsSexp(), common.L("tree", c10lab.TreeSexp(run.Tree)), common.L("root", p.Sexp()),
-		common.L("data", gplan.JSONSexp(pv)), common.L(trace...), common.L(frames...), frameSummary(s),
+		common.L("data", gplan.JSONSexp(pv)), common.L(trace...), common.L(frames...), frameSummary(s), flushSummary(s), common.L(fl...), common.L("window", common.B(p.Window)),
 		common.L("mode", mode), common.L("valid", common.B(p.Valid)), common.L("status", status), common.L("compl", common.I(run.Rec.Completes)),
 		common.L(nof...), common.L(gof...), common.L("recon", recon), common.L("mut", q(strings.Join(labels, ","))), common.L("panic", q(run.Panic)))
 }
@@ -958,6 +1007,65 @@ func witnessMode(a map[string]string) {
 	p3 := &c10lab.DPlan{
 		Root: &gplan.Node{Kind: gplan.KObj, TypeName: "Query", Fields: []*gplan.Field{{Name: "a", Value: str("a", false)}, fb}},
 		Defer: map[*gplan.Field]int{fb: 1}, Descs: []*c10lab.Desc{{ID: 1}}, NoFetch: map[int]bool{}, Valid: true,
+	}
+	// corpus of hand-built plans with hard fetch failures and slow flushes (corpus/C10/hardfail_plans.txt):
+	//   (c10plan (shape siblings|nested) (fail (id kind)...) (window t|f) (orders n))
+	// siblings: { a ... @defer { b } ... @defer { e } }      nested: { a ... @defer { b { c ... @defer { d } ... @defer { e } } } }
+	if pf, ok := a["plans"]; ok {
+		data, err := os.ReadFile(pf)
+		if err != nil {
+			fmt.Fprintln(os.Stderr, err)
+			os.Exit(2)
+		}
+		for _, line := range strings.Split(string(data), "\n") {
+			line = strings.TrimSpace(line)
+			if line == "" || strings.HasPrefix(line, ";") {
+				continue
+			}
+			x, err := fl.ParseSexp(line)
+			if err != nil || x.Head() != "c10plan" || len(x.List) < 5 {
+				fmt.Fprintln(os.Stderr, "bad plan corpus line:", line)
+				os.Exit(2)
+			}
+			var p *c10lab.DPlan
+			var payload string
+			switch x.List[1].List[1].Atom {
+			case "siblings":
+				f1 := &gplan.Field{Name: "b", Value: str("b", true)}
+				f2 := &gplan.Field{Name: "e", Value: str("e", true)}
+				p = &c10lab.DPlan{
+					Root:  &gplan.Node{Kind: gplan.KObj, TypeName: "Query", Fields: []*gplan.Field{{Name: "a", Value: str("a", true)}, f1, f2}},
+					Defer: map[*gplan.Field]int{f1: 1, f2: 2}, Descs: []*c10lab.Desc{{ID: 1}, {ID: 2}}, NoFetch: map[int]bool{}, Valid: true,
+				}
+				payload = `{"a":"x","b":"y","e":"z"}`
+			default:
+				fc := &gplan.Field{Name: "c", Value: str("c", true)}
+				fd := &gplan.Field{Name: "d", Value: str("d", true)}
+				fe := &gplan.Field{Name: "e", Value: str("e", true)}
+				fbb := &gplan.Field{Name: "b", Value: &gplan.Node{Kind: gplan.KObj, Path: []string{"b"}, Nullable: true, TypeName: "B", Fields: []*gplan.Field{fc, fd, fe}}}
+				p = &c10lab.DPlan{
+					Root:  &gplan.Node{Kind: gplan.KObj, TypeName: "Query", Fields: []*gplan.Field{{Name: "a", Value: str("a", true)}, fbb}},
+					Defer: map[*gplan.Field]int{fbb: 1, fc: 1, fd: 2, fe: 3},
+					Descs: []*c10lab.Desc{{ID: 1}, {ID: 2, Parent: 1, Path: []string{"b"}}, {ID: 3, Parent: 1, Path: []string{"b"}}}, NoFetch: map[int]bool{}, Valid: true,
+				}
+				payload = `{"a":"x","b":{"c":"y","d":"z","e":"w"}}`
+			}
+			p.Fail = map[int]int{}
+			for _, e := range x.List[2].List[1:] {
+				id, _ := strconv.Atoi(e.List[0].Atom)
+				k, _ := strconv.Atoi(e.List[1].Atom)
+				p.Fail[id] = k
+			}
+			p.Window = x.List[3].List[1].Atom == "t"
+			orders, _ := strconv.Atoi(x.List[4].List[1].Atom)
+			for o := 0; o < orders; o++ {
+				oo := o
+				run := p.Execute(payload, nil, func(step int, blocked []int) int { return (oo + step) % len(blocked) })
+				if line := corrLine(p, payload, "full", nil, run); line != "" {
+					out.Line(line)
+				}
+			}
+		}
 	}
 	for _, w := range []struct {
 		p    *c10lab.DPlan
